@@ -1446,6 +1446,10 @@ impl<'a> UserModel<'a> {
         row_end: i32,
         hidden: bool,
     ) -> Result<(), String> {
+        // Check both ends first, so that an invalid row does not leave part of the range hidden
+        for row in [row_start, row_end] {
+            self.model.workbook.worksheet(sheet)?.is_row_hidden(row)?;
+        }
         let mut diff_list = Vec::new();
         for row in row_start..=row_end {
             let old_value = self.model.workbook.worksheet(sheet)?.is_row_hidden(row)?;
@@ -1462,23 +1466,22 @@ impl<'a> UserModel<'a> {
             if let Some(view) = self.model.workbook.views.get_mut(&self.model.view_id) {
                 if view.sheet == sheet {
                     // We select the next visible row
+                    // (rows outside the grid are not probed: hiding up to the last row is valid)
                     let mut row = row_end + 1;
-                    while self.model.workbook.worksheet(sheet)?.is_row_hidden(row)? {
+                    while row <= LAST_ROW
+                        && self.model.workbook.worksheet(sheet)?.is_row_hidden(row)?
+                    {
                         row += 1;
-                        if row > LAST_ROW {
-                            break;
-                        }
                     }
                     if row > LAST_ROW {
                         // We select the previous visible row
                         row = row_start - 1;
-                        while self.model.workbook.worksheet(sheet)?.is_row_hidden(row)? {
+                        while row >= 1 && self.model.workbook.worksheet(sheet)?.is_row_hidden(row)? {
                             row -= 1;
-                            if row <= 0 {
-                                // We can't find a visible row
-                                row = 1;
-                                break;
-                            }
+                        }
+                        if row < 1 {
+                            // We can't find a visible row
+                            row = 1;
                         }
                     }
                     self.set_selected_cell(row, 1)?;
